@@ -609,6 +609,9 @@ class GIRParser(object):
             func = self._parse_function_common(ctor, ast.Function, obj)
             func.is_constructor = True
             obj.constructors.append(func)
+        for func in self._find_children(node, _corens('function')):
+            obj.static_methods.append(
+                self._parse_function_common(func, ast.Function, obj))
         for callback in self._find_children(node, _corens('callback')):
             obj.fields.append(
                 self._parse_function_common(callback, ast.Callback, obj))
